@@ -307,6 +307,7 @@ theorem terminal_mem (rws : List Rewrite) (x : Rewrite) (h : terminal rws = some
     | rcode rc => simp [terminal] at h; subst h; exact List.mem_cons_self ..
     | ip4 v => simp only [terminal] at h; exact List.mem_cons_of_mem _ (ih h)
     | ip6 v => simp only [terminal] at h; exact List.mem_cons_of_mem _ (ih h)
+    | other t v => simp only [terminal] at h; exact List.mem_cons_of_mem _ (ih h)
 
 /-- Rewrites that are present and do not send the name to itself always produce a verdict. -/
 theorem processRewrites_ne_none (host : Host) (qt : QType) (rws : List Rewrite) (id : ListId)
@@ -330,6 +331,7 @@ theorem processRewrites_ne_none (host : Host) (qt : QType) (rws : List Rewrite) 
     | rcode rc => simp
     | ip4 v => simp
     | ip6 v => simp
+    | other t v => simp
 
 theorem processRewrites_nil (host : Host) (qt : QType) (id : ListId) :
     processRewrites host qt [] id = .none := by
